@@ -116,6 +116,7 @@ func checkC20(r *core.Result) {
 		return
 	}
 	pd := prog.Pkg("cmd/protodump")
+	protodumpEntryRule(r, prog, pd)
 	nT7 := protodumpPanicFreeCalls(r, prog, pd)
 	r.Floor("library calls with a non-negative-count precondition in protodump", nT7, 1)
 	pt := prog.Pkg("prototest")
@@ -864,4 +865,97 @@ func protodumpPanicFreeCalls(r *core.Result, prog *core.Program, pk *packages.Pa
 		})
 	}
 	return n
+}
+
+// T8/T9: per-field output and error tests of protodump.
+func protodumpEntryRule(r *core.Result, prog *core.Program, pk *packages.Package) {
+	info := pk.TypesInfo
+	f := core.FindFunc(pk, "dumpProto")
+	if f == nil {
+		return
+	}
+	// the loop that reads keys
+	var loop *ast.ForStmt
+	var tagObj, wtObj types.Object
+	ast.Inspect(f.Decl.Body, func(n ast.Node) bool {
+		fs, ok := n.(*ast.ForStmt)
+		if !ok || loop != nil {
+			return true
+		}
+		for _, st := range fs.Body.List {
+			if as, ok := st.(*ast.AssignStmt); ok && len(as.Lhs) == 3 && len(as.Rhs) == 1 {
+				if c, ok := as.Rhs[0].(*ast.CallExpr); ok {
+					if fn := staticCallee(info, c); fn != nil && fn.Name() == "DecodeTag" {
+						loop = fs
+						if id, ok := as.Lhs[0].(*ast.Ident); ok {
+							tagObj = info.Defs[id]
+						}
+						if id, ok := as.Lhs[1].(*ast.Ident); ok {
+							wtObj = info.Defs[id]
+						}
+					}
+				}
+			}
+		}
+		return true
+	})
+	if loop == nil {
+		r.Fail("T8", "dumpProto key loop", prog.Pos(f.Pos()), "no loop around DecodeTag found")
+		return
+	}
+	// a top-level statement of the loop body writes both the field number and the wire type
+	writes := false
+	for _, st := range loop.Body.List {
+		if _, isSwitch := st.(*ast.SwitchStmt); isSwitch {
+			break // must be emitted before the value is consumed, unconditionally
+		}
+		usesTag, usesWT, isWrite := false, false, false
+		ast.Inspect(st, func(n ast.Node) bool {
+			switch x := n.(type) {
+			case *ast.Ident:
+				if info.Uses[x] == tagObj {
+					usesTag = true
+				}
+				if info.Uses[x] == wtObj {
+					usesWT = true
+				}
+			case *ast.CallExpr:
+				if se, ok := x.Fun.(*ast.SelectorExpr); ok && (strings.HasPrefix(se.Sel.Name, "Write") || strings.HasPrefix(se.Sel.Name, "Fprint") || strings.HasPrefix(se.Sel.Name, "Print")) {
+					isWrite = true
+				}
+			}
+			return true
+		})
+		if _, isIf := st.(*ast.IfStmt); !isIf && usesTag && usesWT && isWrite {
+			writes = true
+		}
+	}
+	r.Ob("T8", "dumpProto writes an entry with field number and wire type for every key it reads", prog.Pos(loop.Pos()), writes,
+		"no unconditional write of both the field number and the wire type between DecodeTag and the value switch: fields are consumed without an entry in the output")
+	// the buffered writer is flushed on every exit (deferred)
+	flushed := false
+	for _, st := range f.Decl.Body.List {
+		if ds, ok := st.(*ast.DeferStmt); ok {
+			if se, ok := ds.Call.Fun.(*ast.SelectorExpr); ok && se.Sel.Name == "Flush" {
+				flushed = true
+			}
+		}
+	}
+	usesBuf := false
+	ast.Inspect(f.Decl.Body, func(n ast.Node) bool {
+		if c, ok := n.(*ast.CallExpr); ok {
+			if fn := staticCallee(info, c); fn != nil && fn.Pkg() != nil && fn.Pkg().Path() == "bufio" && fn.Name() == "NewWriter" {
+				usesBuf = true
+			}
+		}
+		return true
+	})
+	r.Ob("T8", "dumpProto flushes its buffered output on every exit", prog.Pos(f.Pos()), !usesBuf || flushed, "the output goes through a bufio.Writer that is not flushed by a deferred call: entries are lost on some exit")
+	n := 0
+	for _, name := range []string{"dumpProto", "dumpProtoFile"} {
+		if g := core.FindFunc(pk, name); g != nil {
+			n += checkErrorTests(r, prog, info, "T9", name, g.Decl.Body)
+		}
+	}
+	r.Floor("error tests in protodump's dump functions", n, 5)
 }
